@@ -52,10 +52,11 @@ FINGERPRINTS = {
 
 CFG_FIELDS = ["condsReversed", "handlersReversed", "useEnabled", "useRunning", "firstWins", "finishedContinues",
               "tiCheck", "tiCheckSkipsSub", "checkAfterInvoke", "checkBeforeInvoke", "startPre", "startInv",
-              "stopInFinally", "nestedFlow", "nestedNames"]
+              "stopInFinally", "nestedFlow", "nestedNames", "closeBlocks"]
 SPEC = dict(condsReversed=True, handlersReversed=True, useEnabled=True, useRunning=True, firstWins=True,
             finishedContinues=True, tiCheck=True, tiCheckSkipsSub=True, checkAfterInvoke=True,
-            checkBeforeInvoke=False, startPre=True, startInv=True, stopInFinally=True, nestedFlow=True, nestedNames=True)
+            checkBeforeInvoke=False, startPre=True, startInv=True, stopInFinally=True, nestedFlow=True, nestedNames=True,
+            closeBlocks=True)
 FUEL = 400
 
 
@@ -97,6 +98,8 @@ def enc_block(stmts, out):
 
 
 def enc_prog(prog):
+    if "src" in prog:
+        return prog["src"]
     out = [str(len(prog["behs"]))]
     for b in prog["behs"]:
         pre, inv = b.get("pre", []), b.get("inv", [])
@@ -145,6 +148,8 @@ def emit(stmts, ind, out):
 
 
 def source(prog):
+    if "src" in prog:
+        return prog["src"]
     out = ["import c13env as E"]
     for i, b in enumerate(prog["behs"]):
         out.append(f"behavior B{i}():")
@@ -211,13 +216,14 @@ def env():
 
     def _start(self, agent):
         n = type(self).__name__
-        if n != E.main and not E.dead and n[:1] == "B" and n[1:].isdigit():
+        r = orig_start(self, agent)  # raises when a precondition / invariant does not hold: then it did not start
+        if n != E.main and n[:1] == "B" and n[1:].isdigit():
             E.log.append((now(), "+" + n[1:]))
-        return orig_start(self, agent)
+        return r
 
     def _stop(self, reason=None):
         n = type(self).__name__
-        if n != E.main and not E.dead and n[:1] == "B" and n[1:].isdigit():
+        if n != E.main and n[:1] == "B" and n[1:].isdigit():
             E.log.append((now(), "-" + n[1:]))
         return orig_stop(self, reason)
 
@@ -237,7 +243,6 @@ def compile_prog(prog):
     src = source(prog)
     if src in _compiled:
         return _compiled[src]
-    veneer.currentBehavior = None  # see notes/design/C13.md (stale state after an abandoned generator is finalised late)
     try:
         sc = scenic.scenarioFromString(src)
         scene, _ = sc.generate(maxIterations=5)
@@ -260,7 +265,6 @@ def run_real(prog, ctab, gtab, steps, raise_gv=True, limit=60):
     if scene is None:
         return {"outcome": "compile-error", "detail": err, "actions": [], "events": []}
     E.ctab, E.gtab, E.log, E.dead, E.main = ctab, gtab, [], False, f"B{prog.get('main', 0)}"
-    veneer.currentBehavior = None
     old = signal.signal(signal.SIGALRM, _alarm)
     signal.alarm(limit)
     actions = []
@@ -284,6 +288,16 @@ def run_real(prog, ctab, gtab, steps, raise_gv=True, limit=60):
         signal.alarm(0)
         signal.signal(signal.SIGALRM, old)
     E.dead = True
+    # no trace of the simulation may be left in the interpreter's global state (a generator finalised late used to
+    # leave veneer.currentBehavior at a dead behaviour: the next scenario of the process then failed to compile)
+    if veneer.currentBehavior is not None or veneer.currentSimulation is not None:
+        outcome = "stale-global-state:" + outcome
+        veneer.currentBehavior = None
+    # sub-behaviours of abandoned blocks are stopped when the block is abandoned -- not when the garbage collector
+    # gets round to the generator, after the simulation (time -1 here)
+    late = sorted(ev for t, ev in E.log if t < 0 and ev[0] == "-")
+    if late:
+        outcome = "late-stop(" + ",".join(late) + "):" + outcome
     return {"outcome": outcome, "actions": actions, "events": canon_events(E.log, steps)}
 
 
@@ -507,7 +521,7 @@ THEOREMS = [_I + n for n in (
     "block_concludes", "abort_effect", "break_effect", "break_propagates", "continue_effect", "return_effect",
     "finished_behaviour_is_silent",
     # abandoned sub-behaviours are stopped
-    "balance", "simLoop_balance", "simulate_balance",
+    "balance", "simLoop_balance", "simulate_balance", "simLoop_balance_viol", "simulate_balance_viol",
     # guards
     "checkGuards_ok_iff", "checkGuards_log_ok", "rejection_in_guard_is_violation", "invCheck_none_iff", "start_ok_iff",
     "start_violation_kind", "simulate_start_violation", "sub_start_violation", "lowerTake_spec",
@@ -519,16 +533,25 @@ THEOREMS = [_I + n for n in (
     "go_mono", "go_mono_le",
 )] + ["Scenic.C13." + n for n in (
     "preempt_latest_enabled", "active_means_enabled_or_running", "handlers_in_reverse_source_order",
-    "handler_finished_continues", "abandoned_subs_stopped", "abandoned_subs_stopped_run", "guards_at_start",
+    "handler_finished_continues", "abandoned_subs_stopped", "abandoned_subs_stopped_run",
+    "abandoned_subs_stopped_on_violation", "legacy_violation_leaves_sub_running", "guards_at_start",
     "guards_after_action", "guards_after_sub", "guards_on_try_resume", "guards_not_during_sub", "control_flags_exact",
     "legacy_checks_invariant_during_sub", "example_priority_and_resumption", "legacy_nested_break_lost",
     "legacy_nested_return_lost", "legacy_nested_break_does_not_compile", "legacy_nested_names_do_not_compile",
     "example_abort_stops_subs",
 )]
-SIDE = ["Scenic.C13.gen_order", "Scenic.C13.gen_selection", "Scenic.C13.gen_checks", "Scenic.C13.gen_stop"]
-# fields of the configuration that describe repairs of recorded defects: the theorems that need them carry them as
-# hypotheses; while they are false the corresponding known finding must reproduce on the real code
-DEFECT_FLAGS = ("tiCheckSkipsSub", "nestedFlow", "nestedNames")
+SIDE = ["Scenic.C13.gen_order", "Scenic.C13.gen_selection", "Scenic.C13.gen_checks", "Scenic.C13.gen_stop",
+        "Scenic.C13.gen_repaired", "Scenic.C13.gen_is_spec"]
+
+
+# --------------------------------------------------------------------------- budgets
+# The search runs at the quick budget first; when nothing was found and the run is a thorough one (or escalated by a
+# changed fingerprint / lost translator tie / failed proof obligation) it goes on at the thorough budget.
+_LEVEL = "quick"
+
+
+def bud(ctx, quick, thorough):
+    return thorough if _LEVEL == "thorough" else quick
 
 
 # --------------------------------------------------------------------------- running many cases
@@ -550,7 +573,7 @@ def run_real_many(ctx, jobs):
     """jobs: [(prog, [(ctab, gtab, steps) | (None, None, None)])] -> list of lists of observations"""
     import multiprocessing as mp
     env()  # import Scenic once, before forking (importing it costs ~10 s of CPU: /repo has no byte-code cache)
-    n = min(8, max(1, (os.cpu_count() or 2) // 2), max(1, len(jobs)))
+    n = min(int(os.environ.get("VERIF_C13_WORKERS", "8") or 8), max(1, (os.cpu_count() or 2) // 2), max(1, len(jobs)))
     if len(jobs) <= 2 or os.environ.get("VERIF_C13_SERIAL") == "1":
         return [_worker(j) for j in jobs]
     mpctx = mp.get_context("fork")
@@ -610,11 +633,10 @@ def describe(prog):
 def correspondence(ctx, cfg, have_model):
     """(C) real code vs model(generated cfg); real code vs model(specified cfg).  Returns True when a concrete
     failing input (not a known finding) was found."""
-    quick = ctx.budget(True, False)
     jobs = gen_cases(ctx, cfg_bits(cfg) if cfg else "gen",
-                     nprog=ctx.budget(70, 900), ntab=ctx.budget(24, 60),
-                     steps_choices=ctx.budget([3, 4, 4], [4, 5, 5, 6]), max_depth=ctx.budget(2, 3),
-                     exhaustive_limit=ctx.budget(256, 4096))
+                     nprog=bud(ctx, 70, 450), ntab=bud(ctx, 24, 50),
+                     steps_choices=bud(ctx, [3, 4, 4], [4, 5, 5, 6]), max_depth=bud(ctx, 2, 3),
+                     exhaustive_limit=bud(ctx, 256, 4096))
     gbits = cfg_bits(cfg) if cfg else "gen"
     lines_g, lines_s, index = [], [], []
     for pi, (p, cases) in enumerate(jobs):
@@ -622,7 +644,7 @@ def correspondence(ctx, cfg, have_model):
             lines_g.append(run_line(gbits, p, ct, gt, steps))
             lines_s.append(run_line("spec", p, ct, gt, steps))
             index.append((pi, ci))
-    T = ctx.extra.setdefault("timing", {})
+    T = ctx.extra.setdefault("timing", {}).setdefault(_LEVEL, {})
     T["cases_generated_s"] = round(ctx.elapsed(), 1)
     out_g = [canon_lean(x) for x in ctx.driver(lines_g)]
     out_s = [canon_lean(x) for x in ctx.driver(lines_s)]
@@ -695,8 +717,8 @@ def correspondence(ctx, cfg, have_model):
                 ctx.hist("deviation_from_spec", key)
                 if ctx.violation(key, what, dict(rep, expected=ms, got=r)):
                     found = True
-    ctx.extra["correspondence"] = {"cases": k, "model_vs_real_mismatches": ncorr_bad, "spec_vs_real_mismatches": nspec_bad,
-                                   "attributed": attributed}
+    ctx.extra.setdefault("correspondence", {})[_LEVEL] = {"cases": k, "model_vs_real_mismatches": ncorr_bad,
+                                                          "spec_vs_real_mismatches": nspec_bad, "attributed": attributed}
     return found
 
 
@@ -731,7 +753,7 @@ def direct_flat_priority(ctx):
     rng = ctx.rng
     found = False
     jobs, meta = [], []
-    for _ in range(ctx.budget(12, 80)):
+    for _ in range(bud(ctx, 12, 80)):
         nh = rng.choice([1, 2, 3])
         lens = [rng.choice([1, 2, 3, 4])] + [rng.choice([1, 2, 3]) for _ in range(nh)]
         label = lambda blk, pos: 100 * blk + pos + 1  # block 0 = body, block j+1 = clause j
@@ -740,9 +762,9 @@ def direct_flat_priority(ctx):
         prog = {"behs": [{"body": [["try", body, hs], ["take", 999]]}]}
         steps = rng.choice([5, 6, 7])
         cases = []
-        allt = all_tables(nh, steps, ctx.budget(64, 512), rng)
+        allt = all_tables(nh, steps, bud(ctx, 64, 512), rng)
         tabs = allt if allt is not None else [[[int(rng.random() < rng.choice([0.2, 0.5])) for _ in range(steps)] for _ in range(nh)]
-                                              for _ in range(ctx.budget(40, 150))]
+                                              for _ in range(bud(ctx, 40, 150))]
         for ct in tabs:
             cases.append((ct, [], steps))
         jobs.append((prog, cases))
@@ -751,32 +773,10 @@ def direct_flat_priority(ctx):
     for (prog, cases), (nh, lens), robs in zip(jobs, meta, res):
         for (ct, gt, steps), r in zip(cases, robs):
             ctx.case(("flat", enc_prog(prog), ct), nontrivial=any(any(row) for row in ct))
-            rep = {"kind": "run", "prog": prog, "ctab": ct, "gtab": gt, "steps": steps, "oracle": "flat-priority"}
-            if r["outcome"] != "ok":
-                found |= ctx.violation("direct:flat:" + r["outcome"].split(":")[0], f"flat try-interrupt program ended with {r['outcome']}", rep)
-                continue
-            acts = _acts(r)
-            pos = {}
-            done_stmt = False
-            for t, a in enumerate(acts):
-                if a is None or a == 999:
-                    done_stmt = True
-                    continue
-                if done_stmt:
-                    found |= ctx.violation("direct:flat:after-end", f"action {a} of the statement after the statement had ended (step {t})", rep)
-                    break
-                blk, p = divmod(a - 1, 100)
-                latest = max([j + 1 for j in range(nh) if ct[j][t]] + [0])
-                if blk < latest:
-                    found |= ctx.violation("direct:priority", f"step {t}: block {blk} acted although the condition of clause {latest - 1} "
-                                           f"(later in the source) was true; actions {acts}", rep)
-                    break
-                exp = pos.get(blk, 0)
-                if p != exp:
-                    found |= ctx.violation("direct:resumption", f"step {t}: block {blk} produced its action #{p} but should have continued at #{exp}; "
-                                           f"actions {acts}", rep)
-                    break
-                pos[blk] = (p + 1) % lens[blk] if blk else p + 1
+            rep = {"kind": "run", "prog": prog, "ctab": ct, "gtab": gt, "steps": steps, "oracle": "flat-priority", "nh": nh, "lens": lens}
+            jd = judge_flat(nh, lens, ct, r)
+            if jd:
+                found |= ctx.violation(jd[0], jd[1] + f"; program:\n{source(prog)}ctab={ct}", rep)
             ctx.hist("direct_flat", "checked")
     return found
 
@@ -799,7 +799,7 @@ def direct_templates(ctx):
     rng = ctx.rng
     found = False
     T = lambda a: ["take", a]
-    for _ in range(ctx.budget(2, 8)):
+    for _ in range(bud(ctx, 2, 8)):
         t0 = rng.choice([1, 2, 3])
         pulse = [[int(t == t0) for t in range(8)]]
         # --- control statements in a handler (loop around the statement)
@@ -860,22 +860,20 @@ def direct_templates(ctx):
             ctx.case(("reject", bad))
             if r["outcome"] != "rejected":
                 found |= ctx.violation("direct:reject", f"a guard violation with raiseGuardViolations=False gave {r['outcome']} instead of a rejected simulation",
-                                       {"kind": "run", "prog": mainpre, "ctab": [], "gtab": [[bad, 1, 1]], "steps": 3, "raise_gv": False})
+                                       {"kind": "run", "prog": mainpre, "ctab": [], "gtab": [[bad, 1, 1]], "steps": 3, "raise_gv": False, "oracle": "reject"})
         # --- abandoned sub-behaviours are stopped (observed through Behavior._start/_stop)
         deep = {"behs": [{"body": [["while", [["try", [["do", 1]], [[0, [["abort"]]]]], T(9)]]]}, {"body": [["do", 2]]}, {"body": [T(1), T(2), T(3), T(4)]}]}
-        r = run_real(deep, pulse, [], 6)
-        ctx.case(("stops", t0))
-        ev = r["events"]
-        okstop = r["outcome"] == "ok" and len(ev) > t0 and sorted(e for e in ev[t0] if e[0] == "-") == ["-1", "-2"]
-        if not okstop:
-            found |= ctx.violation("direct:abandoned-subs", f"abort at step {t0} did not stop both sub-behaviours in that step: events {ev}",
-                                   {"kind": "run", "prog": deep, "ctab": pulse, "gtab": [], "steps": 6, "oracle": "abandoned-subs"})
         untl = {"behs": [{"body": [["dountil", 1, 0], T(9)]}, {"body": [["do", 2]]}, {"body": [T(1), T(2), T(3), T(4)]}]}
-        r = run_real(untl, pulse, [], 6)
-        ev = r["events"]
-        if not (r["outcome"] == "ok" and len(ev) > t0 and sorted(e for e in ev[t0] if e[0] == "-") == ["-1", "-2"] and _acts(r)[t0] == 9):
-            found |= ctx.violation("direct:until-stops-subs", f"`do .. until` firing at step {t0} did not stop the sub-behaviours: {r}",
-                                   {"kind": "run", "prog": untl, "ctab": pulse, "gtab": [], "steps": 6, "oracle": "until-stops-subs"})
+        for key, pr, wa, why in (("direct:abandoned-subs", deep, None, f"abort at step {t0} stops both sub-behaviours in that step"),
+                                 ("direct:until-stops-subs", untl, [1, 2, 3][:t0] + [9], f"`do .. until` firing at step {t0} stops the sub-behaviours")):
+            r = run_real(pr, pulse, [], 6)
+            ctx.case(("stops", key, t0))
+            dev = judge_stops(r, "ok", wa, {t0: ["-1", "-2"]})
+            ctx.hist("direct_template", key + (":DEVIATES" if dev else ":ok"))
+            if dev:
+                found |= ctx.violation(key, f"{why}: " + "; ".join(dev) + f"; events {r['events']}",
+                                       {"kind": "run", "prog": pr, "ctab": pulse, "gtab": [], "steps": 6, "oracle": "stops",
+                                        "expected": {"outcome": "ok", "actions": wa, "stops": {str(t0): ["-1", "-2"]}}})
     return found
 
 
@@ -891,48 +889,70 @@ ego = new Object with behavior B
 '''
 
 
-LEAK = """
-behavior Sub():
+EXC_SRC = """import c13env as E
+behavior B1():
     take 1
     take 2
     take 3
-behavior Main():
-    invariant: simulation().currentTime < 2
+    take 4
+    take 5
+behavior B0():
     try:
-        do Sub()
-    interrupt when simulation().currentTime == 1:
-        take 5
-ego = new Object with behavior Main
+        do B1()
+    interrupt when E.c(0):
+        raise ValueError("left by an exception")
+    except ValueError:
+        take 7
+        take 8
+    take 9
+ego = new Object with behavior B0()
 """
 
 
-def direct_global_state(ctx):
-    """An invariant violation (after the handler's own action, step 2) while the `try` body is suspended inside a
-    sub-behaviour must leave no trace in the process: the next scenario must still compile."""
-    import scenic
-    import scenic.syntax.veneer as veneer
-    from scenic.core.dynamics import GuardViolation
-    from scenic.core.simulators import DummySimulator
-    env()
-    ctx.case("global-state-after-violation")
-    veneer.currentBehavior = None
-    try:
-        sc = scenic.scenarioFromString(LEAK)
-        scene, _ = sc.generate(maxIterations=5)
-        try:
-            DummySimulator().simulate(scene, maxSteps=3, maxIterations=1, raiseGuardViolations=True)
-        except GuardViolation:
-            pass
-        stale = veneer.currentBehavior
-        veneer.currentBehavior = None
-    except Exception as e:
-        return ctx.violation("direct:global-state-crash", f"{type(e).__name__}: {e}", {"kind": "source", "source": LEAK, "steps": 3})
-    if stale is not None:
-        return ctx.violation("direct:stale-current-behavior",
-                             f"after a simulation rejected by an invariant violation under try-interrupt, veneer.currentBehavior is left at {stale!r}: "
-                             "the next scenarioFromString in the process fails (tried to create an object inside a behavior)",
-                             {"kind": "source", "source": LEAK, "steps": 3})
-    return False
+def judge_stops(r, want_outcome, want_actions, stops):
+    """deviations of an observation from: outcome, action prefix, and {step: sorted stop events of that step}"""
+    dev = []
+    if r["outcome"] != want_outcome:
+        dev.append(f"outcome {r['outcome']} instead of {want_outcome}")
+    if want_actions is not None and _acts(r)[: len(want_actions)] != want_actions:
+        dev.append(f"actions {r['actions']} instead of {want_actions}")
+    for t, want in (stops or {}).items():
+        t = int(t)
+        got = sorted(e for e in (r["events"][t] if t < len(r["events"]) else []) if e[0] == "-")
+        if got != sorted(want):
+            dev.append(f"sub-behaviours stopped in step {t}: {got} instead of {sorted(want)}")
+    return dev
+
+
+def direct_exceptional_exit(ctx):
+    """A try-interrupt statement left by an exception while another of its blocks is suspended inside a sub-behaviour:
+    the sub-behaviour is stopped in that very step (not when the generator happens to be finalised), and nothing of
+    the simulation is left in the interpreter's global state.
+    (i) the exception is an invariant violation raised when the handler resumes after its action;
+    (ii) the exception is raised by a handler and caught by the statement's own `except` clause, whose body goes on
+         acting for two more steps."""
+    found = False
+    T = lambda a: ["take", a]
+    for t0 in ([1, 2] if _LEVEL == "quick" else [1, 2, 3]):
+        pulse = [[int(t == t0) for t in range(8)]]
+        viol = {"behs": [{"inv": [0], "body": [["try", [["do", 1]], [[0, [T(5), T(6)]]]], T(7)]}, {"body": [["do", 2]]},
+                         {"body": [T(1), T(2), T(3), T(4), T(5)]}]}
+        gt = [[1 if t != t0 + 1 else 0 for t in range(8)]]
+        cases = [("direct:stops-on-violation", viol, pulse, gt, 6, f"viol:inv:0:{t0 + 1}", None, {t0 + 1: ["-1", "-2"]},
+                  "an invariant violation leaves the statement while its body is suspended two sub-behaviours deep"),
+                 ("direct:stops-on-exception", {"src": EXC_SRC, "behs": [], "main": 0}, pulse, [], 7, "ok",
+                  ([1, 2, 3, 4][:t0] + [7, 8, 9, None])[:7], {t0: ["-1"]},
+                  "a handler raises, the `except` clause of the statement takes over")]
+        for key, prog, ct, gtab, steps, wo, wa, stops, why in cases:
+            r = run_real(prog, ct, gtab, steps)
+            ctx.case(("exc", key, t0), nontrivial=True)
+            dev = judge_stops(r, wo, wa, stops)
+            ctx.hist("direct_template", key + (":DEVIATES" if dev else ":ok"))
+            if dev:
+                found |= ctx.violation(key, f"{why}: " + "; ".join(dev) + f"; events per step {r['events']}; program:\n{source(prog)}ctab={ct} gtab={gtab}",
+                                       {"kind": "run", "prog": prog, "ctab": ct, "gtab": gtab, "steps": steps, "oracle": "stops",
+                                        "expected": {"outcome": wo, "actions": wa, "stops": {str(k): v for k, v in stops.items()}}})
+    return found
 
 
 def direct_regression(ctx):
@@ -988,13 +1008,6 @@ def run(ctx):
     if ctx.tier == "thorough" and pr.build_ok:
         ctx.leanchecker(["ScenicModel.Props.C13", "ScenicModel.Props.C13Sched", "ScenicModel.Props.C13Balance",
                          "ScenicModel.Props.C13Guards", "ScenicModel.Props.C13Flow", "ScenicModel.Props.C13Fuel"])
-    if cfg is not None:
-        pending = [f for f in DEFECT_FLAGS if not cfg[f]]
-        ctx.extra["hypotheses_not_yet_true_of_the_code"] = pending
-        if pending:
-            ctx.notes.append("theorems guards_not_during_sub / control_flags_exact carry hypotheses not true of the current code: "
-                             + ", ".join(pending) + " (recorded findings; negation witnesses proved)")
-    found = False
     have_driver = True
     try:
         got = ctx.driver(["C13 cfg"])[0]
@@ -1009,25 +1022,59 @@ def run(ctx):
         if pr.build_ok:
             raise
         have_driver = False
-    if have_driver:
-        found |= correspondence(ctx, cfg, pr.build_ok)
-    ctx.extra["timing"]["correspondence_done_s"] = round(ctx.elapsed(), 1)
-    found |= direct_regression(ctx)
-    found |= direct_global_state(ctx)
-    found |= direct_flat_priority(ctx)
-    ctx.extra["timing"]["flat_done_s"] = round(ctx.elapsed(), 1)
-    found |= direct_templates(ctx)
-    ctx.extra["timing"]["templates_done_s"] = round(ctx.elapsed(), 1)
-    # every recorded defect whose repair is not in the code must still reproduce (else the finding is stale)
-    if cfg is not None:
-        hits = {k for k, _ in ctx.known_hits}
-        for f in DEFECT_FLAGS:
-            if not cfg[f] and not any(k.startswith("cfg:" + f) or k.startswith("direct:") for k in hits):
-                ctx.notes.append(f"configuration field {f} is false but no recorded finding reproduced")
+    global _LEVEL
+    found = False
+    levels = ["quick"] + (["thorough"] if ctx.tier == "thorough" or ctx.escalated or ctx.brokens else [])
+    for _LEVEL in levels:
+        T = ctx.extra["timing"].setdefault(_LEVEL, {})
+        # (S) first: cheap, and a concrete failing input found here ends the search
+        found |= direct_regression(ctx)
+        found |= direct_templates(ctx)
+        found |= direct_exceptional_exit(ctx)
+        T["templates_done_s"] = round(ctx.elapsed(), 1)
+        if found:
+            break
+        found |= direct_flat_priority(ctx)
+        T["flat_done_s"] = round(ctx.elapsed(), 1)
+        if found:
+            break
+        if have_driver:
+            found |= correspondence(ctx, cfg, pr.build_ok)
+        T["correspondence_done_s"] = round(ctx.elapsed(), 1)
+        if found:
+            break
+    ctx.extra["search_levels_run"] = levels[: levels.index(_LEVEL) + 1]
+    _LEVEL = "quick"
     ctx.resolve_brokens(found)
 
 
+def judge_flat(nh, lens, ct, r):
+    """the flat-priority oracle on one observation -> (key, what) or None"""
+    if r["outcome"] != "ok":
+        return ("direct:flat:" + r["outcome"].split(":")[0], f"flat try-interrupt program ended with {r['outcome']}")
+    acts = _acts(r)
+    pos = {}
+    done_stmt = False
+    for t, a in enumerate(acts):
+        if a is None or a == 999:
+            done_stmt = True
+            continue
+        if done_stmt:
+            return ("direct:flat:after-end", f"action {a} of the statement after the statement had ended (step {t})")
+        blk, p = divmod(a - 1, 100)
+        latest = max([j + 1 for j in range(nh) if ct[j][t]] + [0])
+        if blk < latest:
+            return ("direct:priority", f"step {t}: block {blk} acted although the condition of clause {latest - 1} "
+                    f"(later in the source) was true; actions {acts}")
+        exp = pos.get(blk, 0)
+        if p != exp:
+            return ("direct:resumption", f"step {t}: block {blk} produced its action #{p} but should have continued at #{exp}; actions {acts}")
+        pos[blk] = (p + 1) % lens[blk] if blk else p + 1
+    return None
+
+
 def replay(ctx, path):
+    """re-executes the recorded input on the real code; exit status 1 = the deviation reproduces, 0 = it does not"""
     body = json.load(open(path))
     rep = body.get("replay", body)
     if rep.get("kind") == "source":
@@ -1040,25 +1087,46 @@ def replay(ctx, path):
             scene, _ = sc.generate(maxIterations=5)
             sim = DummySimulator().simulate(scene, maxSteps=rep.get("steps", 4), maxIterations=1, raiseGuardViolations=True)
             print("result:", "rejected" if sim is None else [list(a.values()) for a in sim.result.actions])
+            bad = sim is None
         except Exception as e:
             print("raised", type(e).__name__, e)
-        return 0
+            bad = True
+        print("REPRODUCED" if bad else "not reproduced: the program runs to the end")
+        return 1 if bad else 0
     if rep.get("kind") != "run":
         print(json.dumps(rep, indent=1)[:3000])
-        return 0
+        print("(no concrete input recorded: a proof obligation / the correspondence broke and the search found no failing input)")
+        return 1
     prog, ct, gt, steps = rep["prog"], rep["ctab"], rep["gtab"], rep["steps"]
     print(source(prog))
     print("conditions (row = condition, column = time step):", ct)
     print("guards     (0 false, 1 true, 2 rejection):        ", gt)
     r = run_real(prog, ct, gt, steps, raise_gv=rep.get("raise_gv", True))
     print("real code :", r["outcome"], " ".join(r["actions"]), "| events per step:", r["events"])
-    if "expected" in rep:
-        e = rep["expected"]
-        print("expected  :", e.get("outcome"), e.get("actions"), ("| events per step: %s" % e["events"]) if "events" in e else "")
+    e = rep.get("expected") or {}
+    if e:
+        print("expected  :", e.get("outcome"), e.get("actions"), ("| events per step: %s" % e["events"]) if "events" in e else "",
+              ("| stops: %s" % e["stops"]) if "stops" in e else "")
+    oracle = rep.get("oracle")
+    dev = []
+    if oracle == "flat-priority":
+        j = judge_flat(rep["nh"], rep["lens"], ct, r)
+        dev = [j[1]] if j else []
+    elif oracle == "stops":
+        dev = judge_stops(r, e["outcome"], e.get("actions"), e.get("stops"))
+    elif oracle == "reject":
+        dev = [] if r["outcome"] == "rejected" else [f"outcome {r['outcome']} instead of a rejected simulation"]
+    elif "events" in e:  # model (specified configuration) vs real code
+        exp = {"outcome": e["outcome"], "actions": [str(a) for a in e.get("actions") or []], "events": e["events"]}
+        dev = [] if same(r, exp) else [first_diff(r, exp) + " differ from the specified behaviour"]
+    elif e:  # template: outcome and a prefix of the action sequence
+        dev = judge_stops(r, e["outcome"], e.get("actions"), None)
     try:
-        o = ctx.driver([run_line("spec", prog, ct, gt, steps), run_line("gen", prog, ct, gt, steps)])
-        print("model (specified configuration):", o[0])
-        print("model (generated configuration):", o[1])
-    except Exception as e:
-        print("(Lean driver unavailable:", e, ")")
-    return 0
+        if "src" not in prog:
+            o = ctx.driver([run_line("spec", prog, ct, gt, steps), run_line("gen", prog, ct, gt, steps)])
+            print("model (specified configuration):", o[0])
+            print("model (generated configuration):", o[1])
+    except Exception as ex:
+        print("(Lean driver unavailable:", ex, ")")
+    print("REPRODUCED: " + "; ".join(dev) if dev else "not reproduced: the real code behaves as specified on this input")
+    return 1 if dev else 0
